@@ -14,6 +14,12 @@ ENGINES = [
 NOTES = "Property-based testing and fuzzing only. See DESIGN.md. Known findings: /verif/known_findings.json."
 NOT_APPLICABLE = {}
 CHECKS = {
+    "C04": {
+        "text": "Execution of everything the checker accepts: an exhaustive operator x operand-type matrix (23 binary operators x 10 x 10 operand types with variables and literals, unary operators, index, call, range bounds, arguments, attribute, interpolation, iteration, conditions, conversions, raise arguments, assignments, returns: ~5.4k programs), CoreGen programs with 0-3 type-changing edits, and the conforming and mutated cases of the C05/C06/C07/C09 generators. Violation iff the run ends in TypeError, AttributeError, NameError or UnboundLocalError.",
+        "design_ref": "DESIGN.md section 6 C04",
+        "note": "Only the four exception classes of the statement count. Programs run in-process with a traced-line budget. Matrix cells and edit shapes of five open findings are excluded by construction and counted.",
+        "technique": "property-based testing: exhaustive operator/type matrix + type-changing edits, executed against a 'does not go wrong' oracle (Hypothesis)",
+    },
     "C09": {
         "text": "Targeted generation: 18 reject shapes and 13 accept shapes of a read relative to its definition, 5 forms of use, 12 positions; verdict oracle by shape, and every accepted program is executed and must not raise NameError / UnboundLocalError / AttributeError. ~24k cases per quick run.",
         "design_ref": "DESIGN.md section 6 C09",
